@@ -5,7 +5,10 @@ attribute-set (also on diagrams, which live in the .aird) / reference-set / spec
 the file did not declare: requirements, property values) on scratch copies of corpus models; at random points
 `model.save()`, reload with a fresh `MelodyModel`, compare every fragment's lxml tree element by element with the
 tree that was in memory (same elements in the same order, same attributes, text and namespaces) and a set of API
-queries (name / summary / description / specification bodies by UUID) before and after.
+queries (name / summary / description / specification bodies by UUID) before and after. The same histories run on
+FRAGMENTED layouts (harness/fragmenter.py; one cut leaves a placeholder that is the only user of its namespace in the
+parent file). Every file a save wrote is also read as BYTES by a tag tokenizer with a namespace scope stack (no lxml):
+every prefix of an element name, attribute name or xsi:type / xmi:type value has to be declared in scope.
 
 Correspondence: at every save point each written fragment is exported; Lean `writeXml` must give the written bytes,
 Lean `parse` of the bytes must be lxml's reloaded tree, and the statement of `save_reload` (`wfDoc d → parse (writeXml
@@ -30,6 +33,9 @@ import props.c01 as c01
 import props.xml_edits as xml_edits
 import props.xml_ns as xml_ns
 
+sys.path.insert(0, str(pathlib.Path(__file__).resolve().parent.parent))
+import fragmenter  # noqa: E402  (independent writer of Capella-style fragmented layouts, shared with C05 / C06)
+
 DRIVERS = ["Xml"]
 TABLES = True
 LEVEL = "proof"
@@ -37,7 +43,9 @@ RULE = ("edit histories of 5..40 API operations (set name/summary/description, c
         "constraint / state machine / property value (group) / requirement module / requirement / relation, delete, move "
         "into another parent, allocate / deallocate, bool and enum attributes, specification bodies, diagram name / "
         "description) on scratch copies "
-        "of corpus models [quick: writemodel + one history on the 5.0 test model; thorough: also 5.2/6.0, library, pvmt], "
+        "of corpus models [quick: writemodel + one history on the 5.0 test model; thorough: also 5.2/6.0, library, pvmt] and on "
+        "FRAGMENTED scratch copies of them written by harness/fragmenter.py (one cut chosen so that its type prefix occurs "
+        "only on the placeholder left in the parent file - typically a whole architecture layer -, 0-2 further cuts), "
         "strings over an alphabet of every escapable character, TAB LF CR, ]]>, white-space-only strings, U+0085/A0/2028, "
         "astral code points and random XML-legal code points; directed: every boundary string in a specification body, "
         "one attribute of 10.5 M characters, 300 nested functions; a save + fresh reload after each operation with "
@@ -60,8 +68,9 @@ MANIFEST = dict(
           "trees and API query answers before save and after a fresh reload."),
     design_ref="§6 C02",
     note=("Trusted: Lean kernel; lxml as parser oracle; the object layer (descriptors) is exercised through the public "
-          "API, not modelled here - its tree effect is observed at every save. update_namespaces is exercised, not "
-          "proved. Mixed content and comments inside elements are outside the theorem's domain."),
+          "API, not modelled here - its tree effect is observed at every save. update_namespaces is modelled "
+          "(Model/XmlNsUpdate.lean: declared = asked for by some element, fragment placeholders included) and tied at every "
+          "save, also on fragmented layouts. Mixed content and comments inside elements are outside the theorem's domain."),
     technique="Lean 4 proof (corollaries of the parse/serialize round trip + preservation lemmas for tree edits) + API-level edit-history monitor with fresh reload",
 )
 
@@ -319,6 +328,150 @@ def check_type_namespaces(model, path: pathlib.Path, out: Outcome, replay: dict,
     out.hit("type-namespaces-checked")
 
 
+# ------------------------------------------------------------------ namespace well-formedness of the written BYTES
+
+import re  # noqa: E402
+
+_NAME = r"[^\s<>/=\"']+"
+_TOKEN = re.compile(
+    r"<!--.*?-->|<\?.*?\?>|<!\[CDATA\[.*?\]\]>|<!DOCTYPE[^>]*>"
+    r"|<(?P<close>/)?(?P<name>" + _NAME + r")(?P<attrs>(?:\s+" + _NAME + r"\s*=\s*(?:\"[^\"]*\"|'[^']*'))*)\s*(?P<empty>/)?>",
+    re.S)
+_ATTR = re.compile(r"(" + _NAME + r")\s*=\s*(?:\"([^\"]*)\"|'([^']*)')", re.S)
+_QNAME_VALUE = re.compile(r"[A-Za-z_][\w.\-]*:[\w.\-]+\Z")
+
+
+def raw_namespace_problems(data: bytes, limit: int = 5) -> list[tuple[str, str]]:
+    """Namespace well-formedness of a written file, read off its bytes with a tag tokenizer and a scope stack (no lxml, no
+    capellambse): every prefix used in an element name, in an attribute name or in the VALUE of an xsi:type / xmi:type
+    attribute must be bound by an `xmlns:prefix` declaration on the element itself or on an ancestor ("Namespaces in
+    XML" §3 for names; the QName-valued type attributes are resolved by EMF / Capella against the same scope).
+    Returns [(class, description)], class in element-prefix / attribute-prefix / type-prefix / unbalanced."""
+    text = data.decode("utf-8")
+    scope: list[dict] = [{"xml": "http://www.w3.org/XML/1998/namespace"}]
+    problems: list[tuple[str, str]] = []
+    for mt in _TOKEN.finditer(text):
+        name = mt.group("name")
+        if name is None:
+            continue
+        if mt.group("close"):
+            if len(scope) > 1:
+                scope.pop()
+            else:
+                problems.append(("unbalanced", f"</{name}> without an open element"))
+            continue
+        attrs = [(a.group(1), a.group(2) if a.group(2) is not None else a.group(3)) for a in _ATTR.finditer(mt.group("attrs") or "")]
+        here = dict(scope[-1])
+        for k, v in attrs:
+            if k.startswith("xmlns:"):
+                here[k[6:]] = v
+        if ":" in name and name.split(":", 1)[0] not in here:
+            problems.append(("element-prefix", f"<{name}>: prefix {name.split(':', 1)[0]!r} is not declared in scope"))
+        for k, v in attrs:
+            if k == "xmlns" or k.startswith("xmlns:") or ":" not in k:
+                continue
+            pfx, local = k.split(":", 1)
+            if pfx not in here:
+                problems.append(("attribute-prefix", f"<{name} {k}=...>: prefix {pfx!r} is not declared in scope"))
+                continue
+            if local == "type" and here[pfx] in (c01.XSI, c01.XMI) and _QNAME_VALUE.match(v):
+                if v.split(":", 1)[0] not in here:
+                    problems.append(("type-prefix", f"<{name} {k}={v!r}>: prefix {v.split(':', 1)[0]!r} is not declared in scope"))
+        if not mt.group("empty"):
+            scope.append(here)
+        if len(problems) >= limit:
+            break
+    return problems
+
+
+def check_written_bytes(out: Outcome, folder: pathlib.Path, names, label: str, replay: dict, seen: dict, thorough: bool) -> None:
+    """the byte-level namespace oracle on every file save() wrote (semantic, visual, metadata); an unchanged big file is
+    scanned once"""
+    for name in names:
+        p = folder / name
+        try:
+            data = p.read_bytes()
+        except OSError:
+            continue
+        key = (len(data), hash(data))
+        if seen.get(name) == key:
+            continue
+        seen[name] = key
+        for cls, what in raw_namespace_problems(data)[:1]:
+            out.find(f"MelodyModel.save|written-bytes|{cls}-undeclared" if cls != "unbalanced" else "MelodyModel.save|written-bytes|unbalanced",
+                     f"{label}: {name} as written by save() is not namespace-well-formed: {what} "
+                     "(a strict XML-namespace reader / Capella cannot load this)",
+                     {**replay, "observed": "bytes:" + cls + ":" + name})
+        out.traces_validated += 1
+        out.hit("written-bytes-namespaces-checked" + ("" if pathlib.PurePosixPath(name).suffix not in (".capellafragment", ".melodyfragment") else ":fragment-file"))
+
+
+# ------------------------------------------------------------------ fragmented layouts (harness/fragmenter.py)
+
+
+def fragment_cuts(rng, aird: pathlib.Path) -> tuple[list, dict]:
+    """cut set for a fragmented scratch copy: one cut whose type prefix occurs NOWHERE else in the file that keeps the
+    placeholder (typically a whole architecture layer: the main file then carries `oa:OperationalAnalysis` on the
+    placeholder only) when the model has one, plus 0-2 further (possibly nested) cuts anywhere"""
+    from lxml import etree
+
+    main, _ = fragmenter.find_main(aird)
+    root = etree.parse(str(aird.parent / main)).getroot()
+    XT = fragmenter.XT
+    cands = [e for e in root.iter() if isinstance(e.tag, str) and e is not root and e.get("id") and ":" in (e.get(XT) or "")
+             and e.get("href") is None and e.getparent() is not None and e.getparent().get("id")]
+    count: dict = {}
+    for e in root.iter():
+        if isinstance(e.tag, str) and ":" in (e.get(XT) or ""):
+            count[e.get(XT).split(":")[0]] = count.get(e.get(XT).split(":")[0], 0) + 1
+    sole = []
+    for e in cands:
+        p = e.get(XT).split(":")[0]
+        inside = sum(1 for x in e.iter() if isinstance(x.tag, str) and (x.get(XT) or "").split(":")[0] == p)
+        if inside == count[p] and len(e) > 0:
+            sole.append(e)
+    chosen = []
+    info = {"sole_user_cut": False}
+    if sole:
+        chosen.append(rng.choice(sole))
+        info["sole_user_cut"] = True
+    others = [e for e in cands if len(e) > 0 and e not in chosen]
+    for _ in range(rng.randint(0 if chosen else 1, 2)):
+        if others:
+            e = rng.choice(others)
+            if e not in chosen:
+                chosen.append(e)
+    used: set = set()
+    cuts = []
+    for i, e in enumerate(chosen):
+        local = e.get(XT).split(":")[1]
+        sub = rng.choice(["fragments/", "fragments/", "", "sub dir/frag%23/"])
+        fname = f"{sub}{local} {i}.capellafragment"
+        if fname in used:
+            continue
+        used.add(fname)
+        cuts.append((e.get("id"), fname))
+    info["cuts"] = [(e.get(XT), f) for e, (_, f) in zip(chosen, cuts)]
+    return cuts, info
+
+
+def fresh_fragmented(ctx: Ctx, out: Outcome, aird: pathlib.Path, tag: str) -> tuple[pathlib.Path, dict]:
+    """a fragmented scratch copy of a corpus model, written by harness/fragmenter.py (independent of capellambse)"""
+    work = ctx.scratch / "c02" / tag
+    shutil.rmtree(work, ignore_errors=True)
+    cuts, info = fragment_cuts(ctx.rng, aird)
+    lay = fragmenter.fragment(aird, work, cuts)
+    for f in aird.parent.iterdir():  # what fresh_copy would also bring along (.project ...); never overwrite
+        if f.is_file() and not (lay.root / lay.project / f.name).exists():
+            shutil.copy(f, lay.root / lay.project / f.name)
+    out.hit("layout:fragmented")
+    if info["sole_user_cut"]:
+        out.hit("layout:fragmented:a-type-prefix-occurs-only-on-a-placeholder")
+    if len(cuts) > 1:
+        out.hit("layout:fragmented:several-cuts")
+    return lay.aird, info
+
+
 # ------------------------------------------------------------------ edit histories
 
 
@@ -339,6 +492,7 @@ class History:
         self.cases: list | None = None  # model requests are queued here
         self.observe_every = 1
         self.n_obs = 0
+        self.bytes_seen: dict = {}
 
     def export(self, visual: bool) -> dict:
         out = {}
@@ -702,6 +856,7 @@ def save_and_compare(h: History, path: pathlib.Path, capellambse, key, cases: li
     out.case(key, {"model": h.label, "ops": len(h.log), "last": last} if len(out.samples) < 4 else None, h.ok_since_save > 0)
     out.traces_validated += 1
     h.ok_since_save = 0
+    check_written_bytes(out, path.parent, list(frag_roots(m)), h.label, replay, h.bytes_seen, h.ctx.thorough)
     try:
         m2 = load(capellambse, path)
     except Exception as e:  # noqa: BLE001
@@ -867,17 +1022,24 @@ def tree_edit_cases(ctx: Ctx, out: Outcome, cases: list):
 # ------------------------------------------------------------------ the run
 
 
-def models(ctx: Ctx) -> list[tuple[pathlib.Path, int, int]]:
-    """(aird, histories, max operations)"""
+def models(ctx: Ctx) -> list[tuple[pathlib.Path, int, int, bool]]:
+    """(aird, histories, max operations, fragmented layout?)"""
     data = common.REPO / "tests" / "data"
-    ms = [(data / "writemodel" / "WriteTestModel.aird", ctx.pick(8, 24), 40),
-          (data / "melodymodel" / "5_0" / "Melody Model Test.aird", 1, ctx.pick(12, 25))]
+    ms = [(data / "writemodel" / "WriteTestModel.aird", ctx.pick(8, 24), 40, False),
+          (data / "melodymodel" / "5_0" / "Melody Model Test.aird", 1, ctx.pick(12, 25), False),
+          # the same histories on FRAGMENTED scratch copies (harness/fragmenter.py: a whole layer in its own file, so that
+          # a type occurs on the placeholder only; further random cuts)
+          (data / "writemodel" / "WriteTestModel.aird", ctx.pick(3, 8), 30, True),
+          (data / "melodymodel" / "5_0" / "Melody Model Test.aird", 1, ctx.pick(6, 20), True)]
     if ctx.thorough:
-        ms += [(data / "melodymodel" / "5_2" / "Melody Model Test.aird", 1, 25),
-               (data / "melodymodel" / "6_0" / "Melody Model Test.aird", 1, 25),
-               (data / "Library Project" / "Library Project.aird", 4, 30),
-               (data / "pvmt" / "PVMTTest.aird", 4, 30),
-               (data / "decl" / "empty_project_52" / "empty_project_52.aird", 4, 30)]
+        ms += [(data / "melodymodel" / "5_2" / "Melody Model Test.aird", 1, 25, False),
+               (data / "melodymodel" / "6_0" / "Melody Model Test.aird", 1, 25, False),
+               (data / "Library Project" / "Library Project.aird", 4, 30, False),
+               (data / "pvmt" / "PVMTTest.aird", 4, 30, False),
+               (data / "decl" / "empty_project_52" / "empty_project_52.aird", 4, 30, False),
+               (data / "melodymodel" / "5_2" / "Melody Model Test.aird", 1, 15, True),
+               (data / "pvmt" / "PVMTTest.aird", 2, 30, True),
+               (data / "decl" / "empty_project_52" / "empty_project_52.aird", 2, 30, True)]
     return ms
 
 
@@ -890,21 +1052,46 @@ def run(ctx: Ctx) -> Outcome:
     capellambse = setup()
     out = Outcome(rule=RULE)
     cases: list = []
-    for aird, n_hist, max_ops in models(ctx):
-        label = str(aird.relative_to(common.REPO / "tests" / "data"))
+    layouts: list = []
+    for aird, n_hist, max_ops, fragmented in models(ctx):
+        label = str(aird.relative_to(common.REPO / "tests" / "data")) + (" [fragmented]" if fragmented else "")
         for hi in range(n_hist):
-            path = fresh_copy(ctx, aird, f"{common.sha(label)}-{hi}")
-            try:
-                m = load(capellambse, path)
-            except Exception as e:  # noqa: BLE001
-                raise common.InfraError(f"cannot load corpus model {label}: {e!r}") from e
+            if fragmented:
+                path, info = fresh_fragmented(ctx, out, aird, f"{common.sha(label)}-{hi}")
+                layouts.append({"model": label, "history": hi, **info})
+                try:
+                    m = load(capellambse, path)
+                except Exception as e:  # noqa: BLE001
+                    out.find(f"MelodyModel|load-fragmented-raises|{type(e).__name__}",
+                             f"{label}: the fragmented layout {info['cuts']} cannot be loaded: {type(e).__name__}: {str(e)[:200]}",
+                             {"kind": "history", "label": label, "log": [], "cuts": info["cuts"]})
+                    shutil.rmtree(path.parent.parent, ignore_errors=True)
+                    continue
+            else:
+                path = fresh_copy(ctx, aird, f"{common.sha(label)}-{hi}")
+                try:
+                    m = load(capellambse, path)
+                except Exception as e:  # noqa: BLE001
+                    raise common.InfraError(f"cannot load corpus model {label}: {e!r}") from e
             h = History(ctx, out, m, label)
+            if fragmented:
+                h.log.append({"op": "layout", "arg": info["cuts"]})
             h.cases = cases
             h.observe_every = 2 if (big_model(aird) and not ctx.thorough) else 1
             h.snap = h.export(True)
             saves = 0
             # directed part 0: edit -> save -> exact inverse edit -> save, before anything else touched the trees
             big = big_model(aird)
+            if fragmented and big and not ctx.thorough:
+                # quick tier, big model, fragmented: a short history (a few operations, a save in the middle and one at the end)
+                for k in range(ctx.rng.randint(4, max_ops)):
+                    h.step()
+                    if k == 1 and not save_and_compare(h, path, capellambse, (label, ctx.seed, hi, "mid"), cases):
+                        break
+                else:
+                    save_and_compare(h, path, capellambse, (label, ctx.seed, hi, "final"), cases)
+                shutil.rmtree(path.parent.parent, ignore_errors=True)
+                continue
             variants = ["attribute"] if (big and not ctx.thorough) else (["attribute", "create", "move"] if hi == 0 else
                                                                           [ctx.rng.choice(["attribute", "create", "move"])])
             if not h.undo_rounds(lambda tag: save_and_compare(h, path, capellambse, (label, ctx.seed, hi, tag), cases), variants):
@@ -933,6 +1120,9 @@ def run(ctx: Ctx) -> Outcome:
     directed_limits(ctx, out, capellambse, cases)
     tree_edit_cases(ctx, out, cases)
     xml_ns.gen_witnesses(ctx, out, cases)  # the witnesses of the namespace theorems, replayed on the implementation
+    # tree-level namespace histories in which fragment placeholders come and go (also as the only user of their namespace):
+    # `update_namespaces` on the very same ModelFile after every edit, against the model (`placeholder_type_declared`)
+    xml_ns.gen_tree_histories(ctx, out, cases, n=ctx.pick(40, 300), focus="placeholder")
 
     if os.environ.get("VERIF_NO_MODEL") != "1":
         answers = c01.run_model([c[0] for c in cases])
@@ -963,6 +1153,7 @@ def run(ctx: Ctx) -> Outcome:
                     out.disagree(stream, {**case, "keys": ks}, short({k: want.get(k) for k in ks}), short({k: mv.get(k) for k in ks}))
                 else:
                     out.disagree(stream, case, short(want), short(mv))
+    out.extra["fragmented_layouts"] = layouts[:12]
     out.extra["alphabet"] = [a.encode("unicode_escape").decode("ascii") for a in STR_ALPHA]
     out.extra["relations_compared_by_accessor_kind"] = dict(sorted(REL_STATS.items()))
     return out
